@@ -155,7 +155,7 @@ def check_fit(prog, r, bc, table):
                 r.fail(fv.name, "fit-guard-shape:" + tag, "the fit test at line %d has no single reservation variable: %s" % (line, show(used, 80)), fv.loc(bi))
                 continue
             rv = res_vars[0]
-            defs = _reservation_defs(fv, it, rv, brs)
+            defs = _reservation_defs(fv, it, rv, brs, bi)
             if not defs:
                 r.unanalysable("%s: cannot evaluate the reservation `%s`" % (short(fv.name), rv), fv.loc(bi))
                 continue
@@ -167,6 +167,9 @@ def check_fit(prog, r, bc, table):
                 r.ok("%s: reservation %s is 4 larger exactly when the add-path id is written" % (tag, rv))
             elif pid:
                 r.fail(fv.name, "addpath-reservation:" + tag, "a 4-byte path id is written in the loop at line %d but the reservation does not grow by 4 under the same add-path flag" % line, fv.loc(bi))
+            # bytes still written into the same message after the loop (e.g. the empty attribute-length field behind the
+            # withdrawn routes) have to fit as well
+            trailing = _trailing_bytes(prog, bc, key, fv, it, bi, lps)
             # families reaching this site
             only, excluded = _family_tests(gs)
             fams = [f for f in table if (only is None or f in only) and f not in excluded]
@@ -184,13 +187,15 @@ def check_fit(prog, r, bc, table):
                 if res is None:
                     continue
                 need = bounds[f]
-                if need == INF or need > res + (1 if strict else 0):
-                    bad.append((f, need, res))
+                if need == INF or need + trailing > res + (1 if strict else 0):
+                    bad.append((f, need if trailing == 0 or need == INF else need + trailing, res))
             for f, need, res in bad:
                 r.fail(fv.name, "reservation:%s:%s" % (tag, fam_name(f)),
                        "the fit test reserves %d bytes (+4 with add-path) but one %s entry (%s) can take %s: the frame can exceed max_message_length() "
                        "by the difference, and the peer rejects it with Bad Message Length"
-                       % (res, fam_name(f), short(table[f]), "an unbounded number of bytes" if need == INF else "%d bytes" % need), fv.loc(bi))
+                       % (res, fam_name(f), short(table[f]), "an unbounded number of bytes" if need == INF else "%d bytes%s" % (need, " (including %s appended to the message after the loop)" % trailing if trailing else "")), fv.loc(bi))
+            if trailing:
+                r.note("%s: %s byte(s) are appended to the message after the loop and counted against the reservation" % (tag, trailing))
             if not bad:
                 r.ok("%s: reservation covers %d famil%s (%s)" % (tag, len(fams), "y" if len(fams) == 1 else "ies", ", ".join("%s<=%s" % (fam_name(f), bounds[f]) for f in sorted(fams))))
     r.floor("NLRI append sites", n_sites, 4)
@@ -250,6 +255,32 @@ def _check_scratch(prog, r, fv, it, brs, bi, tag, local, lps):
             r.fail(fv.name, "scratch-append-unguarded:" + tag, "the NLRI encoded into `%s` is appended to the message at line %d without a test that `len(dst) + %s.len()` stays within max_message_length()" % (name, fv.line(b2), name), fv.loc(b2))
 
 
+def _trailing_bytes(prog, bc, key, fv, it, site, lps):
+    """Most bytes appended to the output buffer on a path from the exit of the loop around `site` to the return."""
+    dst = [l for l, nm in fv.local_name.items() if nm in ("dst", "c") and l <= fv.f["argc"]]
+    inner = [(h, body) for h, body, backs in lps if site in body]
+    if not dst or not inner:
+        return 0
+    h, body = max(inner, key=lambda x: len(x[1]))
+    w = bc._weights(key, dst[0], it, [])
+    exits = {s_ for b in body for _, s_ in fv.succ[b] if s_ not in body and s_ in fv.live}
+    best = {}
+    def go(b, depth=0):
+        if b in best:
+            return best[b]
+        best[b] = 0           # cycle guard
+        nxt = [s_ for _, s_ in fv.succ[b] if s_ in fv.live and s_ not in body]
+        v = w.get(b, 0)
+        if v == INF:
+            best[b] = INF
+            return INF
+        sub = max([go(s_, depth + 1) for s_ in nxt] or [0]) if depth < 400 else 0
+        best[b] = INF if sub == INF else v + sub
+        return best[b]
+    vals = [go(e) for e in exits]
+    return max(vals) if vals else 0
+
+
 def _site_tag(fv, bi, gs):
     for g, labels, how in gs:
         if g[0] == "discr" and g[2] and g[2].endswith("bgp::Update"):
@@ -275,7 +306,7 @@ def _family_tests(gs):
     return only, excluded
 
 
-def _reservation_defs(fv, it, name, brs):
+def _reservation_defs(fv, it, name, brs, site=None):
     """[(lo, hi, family_guard)] for each definition of the local `name`: value range from the abstract state, and the
     `*family == CONST` test (value, polarity) the definition is under, if any."""
     out = []
@@ -285,6 +316,8 @@ def _reservation_defs(fv, it, name, brs):
         for bi, si, s in fv.defs().get(l, []):
             if si == "t" or bi not in it.IN:
                 continue
+            if site is not None and not (bi == site or site in fv.reach(bi)):
+                continue            # a reservation of another loop that happens to have the same name
             st = it.IN[bi].copy()
             for j, s2 in enumerate(fv.blocks[bi]["s"]):
                 if "rv" in s2:
